@@ -422,6 +422,34 @@ static void run_c07(uint64_t c) {
             vf::count("c07_blank_parses", 3);
         }
     }
+    // a raw TAB / LF / CR inside a string (values and keys) makes the text invalid; the string may begin with a character
+    // that would be structure if the scanner resumed inside it
+    {
+        std::vector<size_t> opens;
+        bool                in_str = false;
+        for (size_t i = 0; i < d.size(); ++i) {
+            if (in_str) {
+                if (d[i] == '\\') ++i;
+                else if (d[i] == '"') in_str = false;
+            } else if (d[i] == '"') {
+                in_str = true;
+                opens.push_back(i);
+            }
+        }
+        for (int k = 0; k < 4 && !opens.empty(); ++k) {
+            size_t             at = opens[r.below(uint32_t(opens.size()))];
+            static const char *lead[] = {"", "]", "}", ",", "],", "\\\"]"};
+            std::string        ins    = lead[r.below(6)];
+            ins += "\t\n\r"[r.below(3)];
+            std::string t = d.substr(0, at + 1) + ins + d.substr(at + 1);
+            switch (k % 3) {
+                case 0: parse_once<char>(t, 9, true, "c07:raw-control-in-string-accepted", "TAB/LF/CR inside a string"); break;
+                case 1: parse_once<char16_t>(t, 9, true, "c07:raw-control-in-string-accepted", "TAB/LF/CR inside a string"); break;
+                default: parse_once<char32_t>(t, 9, true, "c07:raw-control-in-string-accepted", "TAB/LF/CR inside a string");
+            }
+            vf::count("c07_raw_control_parses");
+        }
+    }
     for (size_t pos : closers(d)) {
         std::string sw = d;
         sw[pos]        = d[pos] == ']' ? '}' : ']';
